@@ -80,12 +80,18 @@ func Exec(c Case, cap time.Duration) (o Outcome) {
 			o.Status = "infra"
 		case o.ExitCode == exitLostWakeup:
 			o.Status, o.Symptom = "lostwakeup", "host-blocked-with-empty-queues"
+			if m := hangKindRe.FindSubmatch(logData); m != nil {
+				o.Symptom = string(m[1])
+			}
 		case o.ExitCode == exitNotQuiet:
 			o.Status, o.Symptom = "fail", "not-quiescent-commands-left"
 		case o.ExitCode == exitStrong:
 			o.Status, o.Symptom = "fail", "strong-oracle-mismatch"
 		case o.ExitCode == exitHang, bytes.Contains(logData, []byte("all goroutines are asleep - deadlock")):
-			o.Status, o.Symptom = "hang", "hang-engine-idle-host-waiting"
+			o.Status, o.Symptom = "hang", "hang-engine-idle-commands-outstanding"
+			if m := hangKindRe.FindSubmatch(logData); m != nil {
+				o.Symptom = "hang-" + string(m[1])
+			}
 		case o.ExitCode == -1 && (bytes.Contains(logData, []byte("out of memory")) || len(logData) < 80):
 			// killed by a signal without having said anything: the OOM killer
 			o.Status = "infra"
@@ -111,6 +117,8 @@ func Exec(c Case, cap time.Duration) (o Outcome) {
 	o.Status = "ok"
 	return o
 }
+
+var hangKindRe = regexp.MustCompile(`(?m)^PLATLAT-HANG-KIND (\S+)`)
 
 var stageRe = regexp.MustCompile(`(?m)^PLATLAT-STAGE (\w+)`)
 
